@@ -7,6 +7,7 @@ import (
 	"io"
 
 	"github.com/hujm2023/go-sms-protocol/packet"
+	"github.com/hujm2023/go-sms-protocol/verifhook"
 )
 
 var ErrLength = errors.New("Options: error length")
@@ -135,6 +136,7 @@ func ParseOptions(rawData []byte) (Options, error) {
 	)
 
 	for p < length {
+		verifhook.Tick("smgp.ParseOptions")
 		if length-p < 2+2 { // less than Tag len + Length len
 			return nil, ErrLength
 		}
@@ -174,6 +176,7 @@ func ReadOptions(r *packet.Reader) Options {
 	options := make(Options)
 	temp := make([]byte, 4)
 	for {
+		verifhook.Tick("smgp.ReadOptions")
 		if r.Remaining() == 0 {
 			return options
 		}
